@@ -135,12 +135,34 @@ NPow(a, k) == IF k = 0 THEN <<1>>
 \* 2 ^ k
 NPow2(k) == NShift(<<NToInt(NPow(<<2>>, k % 12))>>, k \div 12)
 
-\* digits (each 0..base-1, most significant first) -> natural; base <= 36
+\* a * k + c for 0 <= k, c < B (one pass)
+NMulAddSmall(a, k, c) == IF a = <<>> THEN (IF c = 0 THEN <<>> ELSE <<c>>) ELSE NMulSmallC(a, k, 1, c, <<>>)
+
+\* digits (each 0..base-1, most significant first) -> natural; base <= 36.
+\* Decimal digits are taken three at a time (1000 < B); bases 2, 8, 16 fill limbs directly.
 RECURSIVE NFromDigitsC(_, _, _, _)
 NFromDigitsC(ds, base, i, acc) ==
   IF i > Len(ds) THEN acc
-  ELSE NFromDigitsC(ds, base, i + 1, NAddSmall(NMulSmall(acc, base), ds[i]))
-NFromDigits(ds, base) == NFromDigitsC(ds, base, 1, <<>>)
+  ELSE IF base = 10 /\ i + 2 <= Len(ds)
+       THEN NFromDigitsC(ds, base, i + 3, NMulAddSmall(acc, 1000, ds[i] * 100 + ds[i + 1] * 10 + ds[i + 2]))
+  ELSE NFromDigitsC(ds, base, i + 1, NMulAddSmall(acc, base, ds[i]))
+
+\* bits per digit for the power-of-two bases
+RECURSIVE LimbFromDigits(_, _, _, _, _)
+LimbFromDigits(ds, hi, lo, w, acc) ==      \* value of ds[lo..hi] (most significant first), w bits per digit
+  IF lo > hi THEN acc ELSE LimbFromDigits(ds, hi, lo + 1, w, acc * (2 ^ w) + ds[lo])
+NFromPow2Digits(ds, w) ==
+  LET per == 12 \div w                       \* digits per limb
+      n == Len(ds)
+      nl == (n + per - 1) \div per
+  IN NNorm([j \in 1..nl |-> LET hi == n - (j - 1) * per
+                                lo == IF hi - per + 1 < 1 THEN 1 ELSE hi - per + 1
+                            IN LimbFromDigits(ds, hi, lo, w, 0)])
+NFromDigits(ds, base) ==
+  CASE base = 16 -> NFromPow2Digits(ds, 4)
+    [] base = 8 -> NFromPow2Digits(ds, 3)
+    [] base = 2 -> NFromPow2Digits(ds, 1)
+    [] OTHER -> NFromDigitsC(ds, base, 1, <<>>)
 
 NIsEven(a) == a = <<>> \/ a[1] % 2 = 0
 
